@@ -44,7 +44,7 @@ class Contract(_Keep):
                  returns=None, raises=None, loops=None, ghost=None, on_yield=None,
                  inline=False, variants=None, canaries=(), replay=None, int_mode=None,
                  verify=True, assumptions=(), note="", spec_funcs=None, inline_callees=(),
-                 ensures_on_raise=None, max_paths=4000, label=None, known_extra=None, harness=None, cost=1, canary_variants=2):
+                 ensures_on_raise=None, max_paths=4000, label=None, known_extra=None, harness=None, cost=1, canary_variants=2, native_fallback=None):
         self.key = key
         self.props = list(props)
         self.setup = setup
@@ -72,6 +72,7 @@ class Contract(_Keep):
         self.known_extra = known_extra
         self.harness = harness
         self.cost = cost
+        self.native_fallback = native_fallback
         self.canary_variants = canary_variants
 
 
